@@ -55,9 +55,12 @@ def gen_records(rng, name, n):
         rng.shuffle(times)
     recs = []
     raw = bytearray()
+    if rng.random() < 0.15:
+        # a zero-filled head, the normal shape of a lastlog file (the low uids never logged in)
+        raw += layouts.null_record(name) * rng.choice((1, 4, 5, 6, 12, 40, 200))
     for i, (sec, usec) in enumerate(times):
         if rng.random() < 0.12:
-            raw += layouts.null_record(name)
+            raw += layouts.null_record(name) * rng.choice((1, 1, 1, 2, 7))
         mk = {}
         for (f, off, sz) in fields:
             letter = {"ut_line": b"t", "ll_line": b"t", "ut_user": b"u", "ut_name": b"u", "ut_host": b"h", "ll_host": b"h", "ac_comm": b"c"}[f]
